@@ -724,3 +724,179 @@ V("C07", "compute_chi2-drops-periodic", DHPY, "    indices = indices_chi2(traj.t
 V("C07", "atom-lookup-ignores-offset", DHPY, "[atom_dict[cid][rid + offset][atom] for atom, offset in atoms_and_offsets],", "[atom_dict[cid][rid][atom] for atom, offset in atoms_and_offsets],", "C07-R4")
 V("C07", "twin-chi-row-order", DHPY, '    ["N", "CA", "CB", "CG"],\n    ["N", "CA", "CB", "CG1"],', '    ["N", "CA", "CB", "CG1"],\n    ["N", "CA", "CB", "CG"],', None)
 V("C07", "twin-clamp-order", AKH, "            if (cosine < -1.0f) {\n                cosine = -1.0f;\n            }\n            if (cosine > 1.0f) {\n               cosine = 1.0f;\n            }", "            if (cosine > 1.0f) {\n               cosine = 1.0f;\n            }\n            if (cosine < -1.0f) {\n                cosine = -1.0f;\n            }", None)
+
+# ---------------------------------------------------------------- C06
+RPYX = "mdtraj/rmsd/_rmsd.pyx"
+THC = "mdtraj/rmsd/src/theobald_rmsd.cpp"
+THS = "mdtraj/rmsd/src/theobald_rmsd_sse.h"
+ROTS = "mdtraj/rmsd/src/rotation_sse.h"
+CENS = "mdtraj/rmsd/src/center_sse.h"
+TRJ = "mdtraj/core/trajectory.py"
+V("C06", "serial-branch-no-sqrt", RPYX, """    else:
+        for i in range(target_n_frames):
+            msd = msd_atom_major(n_atoms, n_atoms, &target_xyz[i, 0, 0], &ref_xyz_frame[0, 0], target_g[i], ref_g, 0, NULL)
+            distances[i] = sqrtf(msd)""", """    else:
+        for i in range(target_n_frames):
+            msd = msd_atom_major(n_atoms, n_atoms, &target_xyz[i, 0, 0], &ref_xyz_frame[0, 0], target_g[i], ref_g, 0, NULL)
+            distances[i] = msd""", "C06-R1", "rmsd")
+V("C06", "rmsf-serial-average-misses-z", RPYX, """        for i in range(target_n_frames):
+            for j in range(n_atoms):
+                avg_xyz_frame[j, 0] += target_displaced_xyz[i, j, 0] / target_n_frames
+                avg_xyz_frame[j, 1] += target_displaced_xyz[i, j, 1] / target_n_frames
+                avg_xyz_frame[j, 2] += target_displaced_xyz[i, j, 2] / target_n_frames""", """        for i in range(target_n_frames):
+            for j in range(n_atoms):
+                avg_xyz_frame[j, 0] += target_displaced_xyz[i, j, 0] / target_n_frames
+                avg_xyz_frame[j, 1] += target_displaced_xyz[i, j, 1] / target_n_frames
+                avg_xyz_frame[j, 2] += target_displaced_xyz[i, j, 1] / target_n_frames""", "C06-R1", "rmsf")
+V("C06", "superpose-displaced-not-centred", TRJ, """        if self_align_xyz.ctypes.data != self_displace_xyz.ctypes.data:
+            # when atom_indices is None, these two arrays alias the same memory
+            # so we only need to do the centering once
+            self_displace_xyz -= offset
+""", "", "C06-R2")
+V("C06", "superpose-ref-offset-not-restored", TRJ, "        self_displace_xyz += ref_offset\n", "", "C06-R2")
+V("C06", "superpose-float32-offset", TRJ, "offset = np.mean(self_align_xyz, axis=1, dtype=np.float64).reshape(", "offset = np.mean(self_align_xyz, axis=1).reshape(", "C06-R2")
+V("C06", "superpose-traces-before-centring", TRJ, """        self_align_xyz -= offset
+        if self_align_xyz.ctypes.data != self_displace_xyz.ctypes.data:""", """        self_g = np.einsum("ijk,ijk->i", self_align_xyz, self_align_xyz)
+        self_align_xyz -= offset
+        if self_align_xyz.ctypes.data != self_displace_xyz.ctypes.data:""", "C06-R2")
+V("C06", "traces-used-with-atom-selection", RPYX, "    if precentered and (reference._rmsd_traces is not None) and (target._rmsd_traces is not None) and atom_indices_is_none:\n        target_g = np.asarray(target._rmsd_traces, order='C', dtype=np.float32)\n        ref_g = reference._rmsd_traces[frame]\n    else:\n        if precentered:\n            warnings.warn(\n                'in rmsd(), precentered is ignored when atom_indices != None',\n                RuntimeWarning)\n        target_g = np.empty(target_n_frames, dtype=np.float32)\n        inplace_center_and_trace_atom_major(&target_xyz[0,0,0], &target_g[0], target_n_frames, n_atoms)\n        inplace_center_and_trace_atom_major(&ref_xyz_frame[0, 0], &ref_g, 1, n_atoms)\n\n    # t1 = time.time()\n\n    cdef float[:] distances",
+  "    if precentered and (reference._rmsd_traces is not None) and (target._rmsd_traces is not None):\n        target_g = np.asarray(target._rmsd_traces, order='C', dtype=np.float32)\n        ref_g = reference._rmsd_traces[frame]\n    else:\n        if precentered:\n            warnings.warn(\n                'in rmsd(), precentered is ignored when atom_indices != None',\n                RuntimeWarning)\n        target_g = np.empty(target_n_frames, dtype=np.float32)\n        inplace_center_and_trace_atom_major(&target_xyz[0,0,0], &target_g[0], target_n_frames, n_atoms)\n        inplace_center_and_trace_atom_major(&ref_xyz_frame[0, 0], &ref_g, 1, n_atoms)\n\n    # t1 = time.time()\n\n    cdef float[:] distances", "C06-R3", "rmsd")
+V("C06", "K-entry-sign", THC, "    float k01 =  M[1+2*m ] - M[2+1*m];", "    float k01 =  M[2+1*m ] - M[1+2*m];", "C06-R4")
+V("C06", "C1-sign", THC, "    C_1 = -8.0f * detM;", "    C_1 = 8.0f * detM;", "C06-R4")
+V("C06", "msd-forgets-factor-two", THC, "    rmsd2 = (G_x + G_y - 2.0f * lambda) / numAtoms;", "    rmsd2 = (G_x + G_y - lambda) / numAtoms;", "C06-R4")
+V("C06", "rotation-transposed", THC, "            rot[3] = 2 * (xy + az);\n            rot[6] = 2 * (zx - ay);\n            rot[1] = 2 * (xy - az);", "            rot[3] = 2 * (xy - az);\n            rot[6] = 2 * (zx - ay);\n            rot[1] = 2 * (xy + az);", "C06-R4")
+V("C06", "rotation-entry-sign", THC, "            rot[8] = a2 - x2 - y2 + z2;", "            rot[8] = a2 - x2 + y2 - z2;", "C06-R4")
+V("C06", "eigenvalue-skips-fourth-root", THC, "    result=max(result,r4);\n", "", "C06-R4", "DirectSolve")
+V("C06", "cofactor-wrong-minor", THC, "        q1 = -k01*k2233_2323 + k12*k0233_0323 - k13*k0223_0322;", "        q1 = -k01*k2233_2323 + k12*k0233_0323 - k13*k0213_0312;", "C06-R4")
+V("C06", "clamp-removed", THC, "    if (rmsd2 > 0.0f) ls_rmsd2 = rmsd2;", "    ls_rmsd2 = rmsd2;", "C06-R4")
+V("C06", "sse-mask-row-two", THS, """    static const int masks[4][4] = {
+        {1, 1, 1, 1},
+        {1, 0, 0, 0},
+        {1, 1, 0, 0},
+        {1, 1, 1, 0}
+    };
+    int const *mask;
+#endif
+    /* Will have 3 garbage elements at the end */
+    _ALIGNED(16) float M[12];
+    __m128 xx,xy,xz,yx,yy,yz,zx,zy,zz;
+    __m128 ax,ay,az,bx,by,bz;""", """    static const int masks[4][4] = {
+        {1, 1, 1, 1},
+        {1, 0, 0, 0},
+        {1, 0, 0, 0},
+        {1, 1, 1, 0}
+    };
+    int const *mask;
+#endif
+    /* Will have 3 garbage elements at the end */
+    _ALIGNED(16) float M[12];
+    __m128 xx,xy,xz,yx,yy,yz,zx,zy,zz;
+    __m128 ax,ay,az,bx,by,bz;""", "C06-R5", "msd_atom_major")
+V("C06", "sse-product-wrong-component", THS, """        t0 = _mm_mul_ps(t0,ax);
+        t1 = _mm_mul_ps(t1,ax);
+        t2 = _mm_mul_ps(t2,ax);
+        xx = _mm_add_ps(xx,t0);
+        xy = _mm_add_ps(xy,t1);
+        xz = _mm_add_ps(xz,t2);
+
+        t0 = bx;
+        t1 = by;
+        t2 = bz;
+        t0 = _mm_mul_ps(t0,ay);
+        t1 = _mm_mul_ps(t1,ay);
+        t2 = _mm_mul_ps(t2,ay);
+        yx = _mm_add_ps(yx,t0);
+        yy = _mm_add_ps(yy,t1);
+        yz = _mm_add_ps(yz,t2);
+
+        bx = _mm_mul_ps(bx,az);
+        by = _mm_mul_ps(by,az);
+        bz = _mm_mul_ps(bz,az);
+        zx = _mm_add_ps(zx,bx);
+        zy = _mm_add_ps(zy,by);
+        zz = _mm_add_ps(zz,bz);
+
+        a += 12;
+        b += 12;""", """        t0 = _mm_mul_ps(t0,ax);
+        t1 = _mm_mul_ps(t1,ax);
+        t2 = _mm_mul_ps(t2,ax);
+        xx = _mm_add_ps(xx,t0);
+        xy = _mm_add_ps(xy,t1);
+        xz = _mm_add_ps(xz,t2);
+
+        t0 = bx;
+        t1 = by;
+        t2 = bz;
+        t0 = _mm_mul_ps(t0,ay);
+        t1 = _mm_mul_ps(t1,ay);
+        t2 = _mm_mul_ps(t2,ay);
+        yx = _mm_add_ps(yx,t0);
+        yy = _mm_add_ps(yy,t2);
+        yz = _mm_add_ps(yz,t1);
+
+        bx = _mm_mul_ps(bx,az);
+        by = _mm_mul_ps(by,az);
+        bz = _mm_mul_ps(bz,az);
+        zx = _mm_add_ps(zx,bx);
+        zy = _mm_add_ps(zy,by);
+        zz = _mm_add_ps(zz,bz);
+
+        a += 12;
+        b += 12;""", "C06-R5", "msd_atom_major")
+V("C06", "rotation-tail-wrong-column", ROTS, "        a[3*k + 1] = x*rot[1] + y*rot[4] + z*rot[7];", "        a[3*k + 1] = x*rot[3] + y*rot[4] + z*rot[5];", "C06-R5", "rot_atom_major")
+V("C06", "rotation-vector-transposed", ROTS, """        tx = _mm_add3_ps(_mm_mul_ps(ax, rXX), _mm_mul_ps(ay, rYX), _mm_mul_ps(az, rZX));
+        ty = _mm_add3_ps(_mm_mul_ps(ax, rXY), _mm_mul_ps(ay, rYY), _mm_mul_ps(az, rZY));
+        tz = _mm_add3_ps(_mm_mul_ps(ax, rXZ), _mm_mul_ps(ay, rYZ), _mm_mul_ps(az, rZZ));
+
+#ifdef ALIGNED
+        aos_interleaved_store(a, tx, ty, tz);""", """        tx = _mm_add3_ps(_mm_mul_ps(ax, rXX), _mm_mul_ps(ay, rXY), _mm_mul_ps(az, rXZ));
+        ty = _mm_add3_ps(_mm_mul_ps(ax, rYX), _mm_mul_ps(ay, rYY), _mm_mul_ps(az, rYZ));
+        tz = _mm_add3_ps(_mm_mul_ps(ax, rZX), _mm_mul_ps(ay, rZY), _mm_mul_ps(az, rZZ));
+
+#ifdef ALIGNED
+        aos_interleaved_store(a, tx, ty, tz);""", "C06-R5", "rot_atom_major")
+V("C06", "centre-tail-wrong-mean", CENS, "            confp[i*3 + 2] -= szf;", "            confp[i*3 + 2] -= syf;", "C06-R5")
+V("C06", "centre-mean-over-vector-blocks-only", CENS, "        sx[0] /= n_atoms;", "        sx[0] /= (n_atoms/4)*4;", "C06-R5")
+V("C06", "rmsf-rotation-of-frame-zero", RPYX, """            for i in prange(target_n_frames, nogil=True):
+                msd_atom_major(n_atoms, n_atoms, &target_xyz[i, 0, 0], &ref_xyz_frame[0, 0], ref_g, target_g[i], 1, &rot[i, 0, 0])
+                rot_atom_major(n_atoms, &target_displaced_xyz[i, 0, 0], &rot[i, 0, 0])
+        else:
+            for i in range(target_n_frames):
+                msd_atom_major(n_atoms, n_atoms, &target_xyz[i, 0, 0], &ref_xyz_frame[0, 0], ref_g, target_g[i], 1, &rot[i, 0, 0])
+                rot_atom_major(n_atoms, &target_displaced_xyz[i, 0, 0], &rot[i, 0, 0])""", """            for i in prange(target_n_frames, nogil=True):
+                msd_atom_major(n_atoms, n_atoms, &target_xyz[i, 0, 0], &ref_xyz_frame[0, 0], ref_g, target_g[i], 1, &rot[i, 0, 0])
+                rot_atom_major(n_atoms, &target_displaced_xyz[i, 0, 0], &rot[0, 0, 0])
+        else:
+            for i in range(target_n_frames):
+                msd_atom_major(n_atoms, n_atoms, &target_xyz[i, 0, 0], &ref_xyz_frame[0, 0], ref_g, target_g[i], 1, &rot[i, 0, 0])
+                rot_atom_major(n_atoms, &target_displaced_xyz[i, 0, 0], &rot[0, 0, 0])""", "C06-R6", "rmsf")
+V("C06", "superpose-kernel-rotates-target", RPYX, """    if parallel == True:
+        for i in prange(n_frames, nogil=True):
+            msd_atom_major(n_atoms_align, n_atoms_align, &xyz_align_mobile[i, 0, 0],
+                           &xyz_align_target[target_frame, 0, 0],
+                           g_target[target_frame], g_mobile[i], 1, &rot[i, 0, 0])
+            rot_atom_major(n_atoms_displace, &xyz_displace_mobile[i, 0, 0], &rot[i, 0, 0])
+    else:
+        for i in range(n_frames):
+            msd_atom_major(n_atoms_align, n_atoms_align, &xyz_align_mobile[i, 0, 0],
+                           &xyz_align_target[target_frame, 0, 0],
+                           g_target[target_frame], g_mobile[i], 1, &rot[i, 0, 0])""", """    if parallel == True:
+        for i in prange(n_frames, nogil=True):
+            msd_atom_major(n_atoms_align, n_atoms_align, &xyz_align_target[target_frame, 0, 0],
+                           &xyz_align_mobile[i, 0, 0],
+                           g_target[target_frame], g_mobile[i], 1, &rot[i, 0, 0])
+            rot_atom_major(n_atoms_displace, &xyz_displace_mobile[i, 0, 0], &rot[i, 0, 0])
+    else:
+        for i in range(n_frames):
+            msd_atom_major(n_atoms_align, n_atoms_align, &xyz_align_target[target_frame, 0, 0],
+                           &xyz_align_mobile[i, 0, 0],
+                           g_target[target_frame], g_mobile[i], 1, &rot[i, 0, 0])""", "C06-R6", "superpose_atom_major")
+V("C06", "twin-msd-formula-reordered", THC, "    rmsd2 = (G_x + G_y - 2.0f * lambda) / numAtoms;", "    rmsd2 = (G_y - lambda * 2.0f + G_x) / numAtoms;", None)
+V("C06", "twin-cofactor-terms-reordered", THC, "        q0 =  k11*k2233_2323 - k12*k1233_1323 + k13*k1223_1322;", "        q0 =  k13*k1223_1322 + k11*k2233_2323 - k1233_1323*k12;", None)
+V("C06", "twin-detM-sarrus", THC, """    detM = M[0] * (M[4] * M[8] - M[5] * M[7])
+           + M[3] * (M[7] * M[2] - M[8] * M[1])
+           + M[6] * (M[1] * M[5] - M[2] * M[4]);""", """    detM = M[0]*M[4]*M[8] + M[3]*M[7]*M[2] + M[6]*M[1]*M[5]
+           - M[6]*M[4]*M[2] - M[3]*M[1]*M[8] - M[0]*M[7]*M[5];""", None)
+V("C06", "twin-superpose-trace-order", TRJ, """        self_g = np.einsum("ijk,ijk->i", self_align_xyz, self_align_xyz)
+        ref_g = np.einsum("ijk,ijk->i", ref_align_xyz, ref_align_xyz)""", """        ref_g = np.einsum("ijk,ijk->i", ref_align_xyz, ref_align_xyz)
+        self_g = np.einsum("ijk,ijk->i", self_align_xyz, self_align_xyz)""", None)
